@@ -364,6 +364,20 @@ def merge(code0, anns, code1):
     else:
         for pos, chunk in anns:
             by_pos.setdefault(pos_map[pos], []).extend(chunk)
+    if a != b and len(a) >= 2:
+        # final hints apply at every exit: a proof block that closes the function body in the template is repeated in front of
+        # every `return` statement the source has gained (an early return does not pass through the end of the body)
+        tail = [chunk for pos, chunk in anns if pos == len(a) - 1 and chunk and chunk[0].text == "proof"]
+        if tail:
+            matched_b = set()
+            for tag, i1, i2, j1, j2 in sm.get_opcodes():
+                if tag == "equal":
+                    matched_b.update(range(j1, j2))
+            for j, tb in enumerate(b):
+                if tb == "return" and j not in matched_b and j > 0 and b[j - 1] in (";", "{", "}"):
+                    for chunk in tail:
+                        by_pos.setdefault(j, []).extend(Tok(t.kind, t.text, t.line, t.sp) for t in chunk)
+                    DRIFT_LOG.append("final proof block repeated in front of a new early return (token %d)" % j)
     for j in range(len(code1) + 1):
         for t in by_pos.get(j, []):
             out.append(("ann", t))
